@@ -171,6 +171,9 @@ type Convergen interface {
 	// :typecast
 	OwnerLabel(src *Pet) (dst *PetDTO)
 }
+
+// Blob is carried over: one line far longer than the 64 KiB a line scanner takes by default.
+const Blob = "`+strings.Repeat("0123456789abcdef", 4400)+`"
 `))
 	ins = append(ins, mk("imports", "conv", `//go:build convergen
 
